@@ -717,6 +717,7 @@ theorem scanDir_fine (w : World) (ed : EntryDict) (ss : ScanSt) (sys rel : Str) 
           else
             let fpath := pjoin rel mname
             if acc.st.loaded.any (·.1 == fpath) then .ok acc
+            else if !isRegularAt w fpath then .ok acc
             else match tryLoadUnregistered w acc.st fpath with
               | .error e => .error e
               | .ok (st', true) => .ok { acc with st := st', newManifests := acc.newManifests ++ [fpath] }
@@ -729,10 +730,12 @@ theorem scanDir_fine (w : World) (ed : EntryDict) (ss : ScanSt) (sys rel : Str) 
             split
             · exact fine_ok _
             · split
-              · rename_i e hl
-                exact fun k hk => by cases hk; exact tryLoadUnregistered_fine w _ _ k hl
               · exact fine_ok _
-              · exact fine_ok _) manifestNames
+              · split
+                · rename_i e hl
+                  exact fun k hk => by cases hk; exact tryLoadUnregistered_fine w _ _ k hl
+                · exact fine_ok _
+                · exact fine_ok _) manifestNames
       intro k h
       split at h
       · rename_i e hfe
